@@ -22,7 +22,9 @@ type chr struct { //nolint:unused
 	width int
 }
 
-var matchIdentifier = regexp.MustCompile(`^[$_\p{L}][$_\p{L}\d}]*$`)
+// 7.6: IdentifierStart is a letter (including Nl), $ or _; IdentifierPart adds
+// combining marks, digits, connector punctuation, ZWNJ and ZWJ.
+var matchIdentifier = regexp.MustCompile(`^[$_\p{L}\p{Nl}][$_\p{L}\p{Nl}\p{Mn}\p{Mc}\p{Nd}\p{Pc}\x{200C}\x{200D}]*$`)
 
 func isDecimalDigit(chr rune) bool {
 	return '0' <= chr && chr <= '9'
